@@ -142,7 +142,7 @@ def run(prop, tier, seed, known):
                 if any(abs(a - b) > 1e-9 for a, b in zip(gotl, gl2)):
                     fails.append('lmeasure changes when reference segment %s (level %d) is cut at %s: %s vs %s (frame_size=%s)' % ([s0, e0], lv, cut, gotl, gl2, fs))
             # rejected parameters
-            for bad in (dict(frame_size=0.0), dict(frame_size=-1.0), dict(frame_size=2.0, window=1.0)):
+            for bad in (dict(frame_size=0.0), dict(frame_size=-1.0), dict(frame_size=2.0, window=1.0), dict(frame_size=1.0, window=0), dict(frame_size=0.5, window=0.0)):
                 try:
                     Hm.tmeasure(ra, ea, **bad)
                     fails.append('tmeasure accepted %s' % bad)
